@@ -32,8 +32,9 @@ def run(c):
     shape3.insert(axis, 1)
     key = (b.tobytes(), b.shape, tuple(shape3), axis)
     if key not in CACHE:
+        mats = MATS if (nx + ny) % 2 else {"poly": MATS["poly"], "air": MATS["air"]}      # dict insertion order is arbitrary
         mod = BrushConstraint2D(brush=jnp.asarray(b), axis=axis).init_module(
-            config=CFG, materials=MATS, matrix_voxel_grid_shape=tuple(shape3), single_voxel_size=(1e-7,) * 3,
+            config=CFG, materials=mats, matrix_voxel_grid_shape=tuple(shape3), single_voxel_size=(1e-7,) * 3,
             output_shape={"params": tuple(shape3)})
         gen = jax.jit(mod._generator)
         CACHE[key] = (mod, gen)
